@@ -27,15 +27,26 @@ from .sym import SR, SB, SymArray, HarnessError, engine, lift
 # where `state` identifies (stream, ordinal of the draw on that stream).
 
 
-class GenTok:
-    """stand-in for numpy.random.Generator: identity + number of draws made so far"""
+def _seed_term(seed):
+    if isinstance(seed, (SR, SB)):
+        return lift(seed).t
+    return z3.RealVal(int(seed))
 
-    def __init__(self, key):
+
+class GenTok:
+    """stand-in for numpy.random.Generator: identity + number of draws made so far.
+    state after k draws of the Generator seeded with s  =  gen_state(s, k)   (uninterpreted)"""
+
+    def __init__(self, key, seed_term=None):
         self.key = key
+        self.seed_term = seed_term
         self.n = 0
 
     def take(self):
-        t = z3.Real(f"rng[{self.key}]#{self.n}")
+        if self.seed_term is not None:
+            t = sym.uf("gen_state", 2)(self.seed_term, z3.RealVal(self.n))
+        else:
+            t = z3.Real(f"rng[{self.key}]#{self.n}")
         self.n += 1
         return t
 
@@ -71,9 +82,8 @@ def default_rng(seed=None):
         return seed
     if seed is None:
         return GenTok(f"fresh-entropy-{len(RNG_LOG)}")
-    if isinstance(seed, (SR, SB)):
-        raise HarnessError("symbolic seed")
-    return GenTok(f"seed{int(seed)}")
+    st = _seed_term(seed)
+    return GenTok(f"seed[{st}]", st)
 
 
 def rvs_hook(fam, full, size, random_state):
@@ -84,9 +94,11 @@ def rvs_hook(fam, full, size, random_state):
     elif random_state is None:
         key, ordn = "global", _GLOBAL.n
         st = _GLOBAL.take()
-    elif isinstance(random_state, (int, np.integer)):
-        key, ordn = f"seed{int(random_state)}", 0
-        st = z3.Real(f"rng[seed{int(random_state)}]#0")  # fresh stream restarted for this call
+    elif isinstance(random_state, (int, np.integer, SR)):
+        # a bare int: scipy builds a fresh legacy RandomState(seed) for this call only
+        stt = _seed_term(random_state)
+        key, ordn = f"legacy-seed[{stt}]", 0
+        st = sym.uf("legacy_state", 1)(stt)
     else:
         raise HarnessError(f"unsupported random_state {random_state!r}")
     RNG_LOG.append(("rvs", key, ordn, fam, full, size))
